@@ -79,6 +79,42 @@ pub fn case_lattice(api: &dyn GlobalApi, va: &dyn VariantApi, g: &dyn GenObj, st
             }
         }
     }
+    // an options object built by any other sequence of setter calls (any order, repeated, switched
+    // on and off again) denotes "last write per field": six of the ~600 enumerated sequences
+    // per case, chosen by the case digest
+    {
+        thread_local! {
+            static SEQS: Vec<Vec<(u8, bool)>> = setter_sequences();
+        }
+        let digest = res.iter().fold(fnv_mix(n as u64, 0x10), |h, r| match r {
+            Ok(b) => fnv_mix(h, fnv(b)),
+            Err(e) => fnv_mix(h, *e as u64 + 1),
+        });
+        let shown: Vec<String> = res.iter().map(|r| format!("{:?}", r.as_ref().map(|b| crate::ctx::hex(b)))).collect();
+        SEQS.with(|seqs| -> Result<(), String> {
+            for j in 0..6u64 {
+                let seq = &seqs[(digest.wrapping_add(j.wrapping_mul(0x9E37_79B9_7F4A_7C15)) % seqs.len() as u64) as usize];
+                let eff = setters_effective(seq);
+                let r = crate::ctx::catch(|| g.finalize_setters(seq)).map_err(|p| format!("{}: finalize after {} panicked: {}", what, setters_name(seq), p))?;
+                let got = match r {
+                    Ok(h) => Ok(super::codec::store_vec(h.as_ref(), v.size())?),
+                    Err(e) => Err(e),
+                };
+                st.eval();
+                if got != res[eff.index()] {
+                    return Err(format!(
+                        "{}: GeneratorOptions::new().{} denotes {} but gives {:?} where the same setting built in declaration order gives {}",
+                        what,
+                        setters_name(seq),
+                        opt_name(eff.index()),
+                        got.as_ref().map(|b| crate::ctx::hex(b)),
+                        shown[eff.index()]
+                    ));
+                }
+            }
+            Ok(())
+        })?;
+    }
     // length errors
     let val = va.validity(n);
     for a in 0..32 {
